@@ -304,6 +304,29 @@ MY_SEEDS = {
      ["UpdateRecord", "_grist_Tables_column", 5, {"recalcWhen": 0, "recalcDeps": ["L", 2, 3]}]],
     [["BulkAddRecord", "A", [None, None], {"x": [1, 2], "y": [5, 6]}]],
   ],
+  "c06_trigger_rows": [  # trigger-formula columns read SEVERAL ROWS AT A TIME (record-set attribute:
+                         # lookupRecords(...).total, O.all.total, $peers.total) by formula columns of
+                         # the same and of another table, next to single-row readers; 4 rows
+                         # (col refs of O: manualSort 1, q 2, price 3, k 4, total 5, stamp 6)
+    [["AddTable", "O", [_col("q", "Int"), _col("price", "Int"), _col("k", "Text"),
+                        _col("total", "Int", "($q or 0) * ($price or 0)", isFormula=False),
+                        _col("stamp", "Int", "(value or 0) + 1", isFormula=False),
+                        _col("peers", "RefList:O"),
+                        _col("gross", "Any", "($total or 0) + 10"),
+                        _col("all_tot", "Any", "sum(v or 0 for v in O.all.total)"),
+                        _col("peer_tot", "Any", "sum(v or 0 for v in $peers.total)"),
+                        _col("same_k", "Any", "list(O.lookupRecords(k=$k).stamp)")]],
+     ["AddTable", "P", [_col("name", "Text"),
+                        _col("spent", "Any", "sum(v or 0 for v in O.lookupRecords(p=$id).total)"),
+                        _col("stamps", "Any", "list(O.lookupRecords(p=$id).stamp)")]],
+     ["AddColumn", "O", "p", {"type": "Ref:P", "isFormula": False}]],
+    [["UpdateRecord", "_grist_Tables_column", 5, {"recalcWhen": 0, "recalcDeps": ["L", 2, 3]}],
+     ["UpdateRecord", "_grist_Tables_column", 6, {"recalcWhen": 0, "recalcDeps": ["L", 2]}]],
+    [["BulkAddRecord", "P", [None, None], {"name": ["ann", "bob"]}],
+     ["BulkAddRecord", "O", [None, None, None, None],
+      {"p": [1, 1, 1, 2], "q": [1, 2, 3, 4], "price": [10, 20, 30, 40], "k": ["a", "a", "b", "a"],
+       "peers": [["L", 2, 3], ["L", 1, 3, 4], None, ["L", 1, 2]]}]],
+  ],
   "c06_lookup_cycle": [
     [["AddTable", "A", [_col("n", "Int"), _col("k", "Any", "len(A.lookupRecords(k=$n))"),
                         _col("m", "Any", "A.lookupOne(n=$n + 1).m"),
@@ -333,7 +356,7 @@ CYCLE_FORMULAS = [
 
 class C06Monitor(explore.Monitor):
   seeds = ("c06_cycle", "c06_cross", "c06_rows", "c06_lookup_cycle", "c06_trigger", "trigger_deps",
-           "basic", "refs", "lookup", "summary")
+           "basic", "refs", "lookup", "summary", "c06_trigger_rows")
   length = 4
   weights = {"modify_formula": 12, "add_formula_col": 8, "to_formula": 4, "update": 14,
              "bulk_update": 8, "add": 8, "remove": 5, "multi": 8, "invalid": 1, "view": 0,
@@ -379,31 +402,88 @@ class C06Monitor(explore.Monitor):
         pass
 
   # -- generation: the default mix plus formulas that create / break cycles ------------------------
-  def trigger_update(self, e, g):
-    """One UpdateRecord / BulkUpdateRecord that sets a trigger-formula column explicitly TOGETHER
-    with other data columns of the row (the shape an undo of a plain edit has)."""
-    rng = g.rng
+  def trigger_tables(self, e, g):
+    """[(table, trigger-formula data columns)] of the tables that have rows"""
     tabs = g.doc(e)
     cands = []
     for t in g.data_tables(tabs):
       trig = [c for c in tabs[t][0] if not c[2] and c[3] and c[0] != "manualSort"]
       if trig and tabs[t][1]: cands.append((t, trig))
+    return tabs, cands
+
+  def trigger_update(self, e, g):
+    """A bundle of 1-3 UpdateRecord / BulkUpdateRecord actions on a table with trigger-formula
+    columns.  Each action either edits plain data columns only (the trigger columns of those rows
+    get recalculated) or sets trigger-formula columns explicitly TOGETHER with other data columns
+    of the row (the shape the undo of a plain edit has: the explicitly set cells are exempt from
+    recalculation for the rest of that user action).  With several actions the rows of one trigger
+    column end the bundle in DIFFERENT states - recalculated, dirty, exempt -, which is what a
+    formula reading several rows of that column at once has to cope with."""
+    rng = g.rng
+    tabs, cands = self.trigger_tables(e, g)
     if not cands: return None
     t, trig = rng.choice(cands)
     data = [c for c in tabs[t][0] if not c[2] and not c[3] and c[0] != "manualSort"]
-    vals = {}
-    for c in rng.sample(trig, rng.randint(1, len(trig))) + rng.sample(data, min(len(data), rng.randint(1, 2))):
-      vals[c[0]] = rng.choice(gen.values_for(c[1], rng, e, g.rows_of(e)))
     rows = tabs[t][1]
-    if rng.random() < 0.6:
-      return [["UpdateRecord", t, rng.choice(rows), vals]]
-    rs = rng.sample(rows, rng.randint(1, len(rows)))
-    return [["BulkUpdateRecord", t, rs, {k: [v] * len(rs) for k, v in vals.items()}]]
+    n_actions = rng.choice([1, 2, 2, 3])
+    acts = []
+    for k in range(n_actions):
+      last = k == n_actions - 1
+      override = rng.random() < (0.75 if last else 0.3) or not data
+      cols = rng.sample(data, min(len(data), rng.randint(1, 2)))
+      if override:
+        cols = rng.sample(trig, rng.randint(1, len(trig))) + cols
+      vals = {}
+      for c in cols:
+        pool = gen.values_for(c[1], rng, e, g.rows_of(e))
+        if rng.random() < 0.7:      # mostly well-typed values: errors hide differences
+          pool = [v for v in pool if v is not None and not isinstance(v, (str, bool))
+                  or c[1] not in ("Int", "Numeric")] or pool
+        vals[c[0]] = rng.choice(pool)
+      if rng.random() < 0.65:
+        acts.append(["UpdateRecord", t, rng.choice(rows), vals])
+      else:
+        rs = rng.sample(rows, rng.randint(1, len(rows)))
+        acts.append(["BulkUpdateRecord", t, rs, {k_: [v] * len(rs) for k_, v in vals.items()}])
+    return acts
+
+  def multi_row_reader(self, e, g):
+    """AddColumn / ModifyColumn giving some formula column a formula that reads SEVERAL ROWS of a
+    trigger-formula column in one access (attribute of a record set), built on the current
+    document: T.all.c, T.lookupRecords(k=$k).c, $reflist.c."""
+    rng = g.rng
+    tabs, cands = self.trigger_tables(e, g)
+    if not cands: return None
+    t, trig = rng.choice(cands)
+    c = rng.choice(trig)[0]
+    forms = ["list(%s.all.%s)" % (t, c),
+             "sum(v for v in %s.all.%s if isinstance(v, (int, float)))" % (t, c)]
+    host = rng.choice(g.data_tables(tabs))
+    for k in tabs[t][0]:
+      if not k[2] and not k[3] and k[0] != "manualSort":
+        if host == t:
+          forms.append("list(%s.lookupRecords(%s=$%s).%s)" % (t, k[0], k[0], c))
+        if k[1] == "Ref:" + host:
+          forms += ["list(%s.lookupRecords(%s=$id).%s)" % (t, k[0], c)] * 2
+    for k in tabs[host][0]:
+      if k[1] == "RefList:" + t and not k[2]:
+        forms += ["list($%s.%s)" % (k[0], c)] * 2
+    f = rng.choice(forms)
+    fcols = [k for k in tabs[host][0] if k[2] and k[0] != "manualSort"]
+    if fcols and rng.random() < 0.4:
+      return [["ModifyColumn", host, rng.choice(fcols)[0], {"formula": f}]]
+    if len(tabs[host][0]) < 12:
+      # names sorting before and after the usual trigger column names
+      return [["AddColumn", host, rng.choice(["aa", "b", "m", "rd", "zz2"]),
+               {"type": "Any", "isFormula": True, "formula": f}]]
+    return None
 
   def gen_bundle(self, st, e, g):
     r = g.rng.random()
-    if r > 0.8:
-      b = self.trigger_update(e, g)
+    has_trigger = bool(self.trigger_tables(e, g)[1])
+    # documents with trigger-formula columns get the trigger shapes much more often
+    if r > (0.5 if has_trigger else 0.8):
+      b = self.multi_row_reader(e, g) if (has_trigger and r > 0.92) else self.trigger_update(e, g)
       if b: return b
     if r < 0.3:
       tabs = g.doc(e)
